@@ -272,6 +272,17 @@ mod derived {
 		}
 	}
 
+	/// every field skipped: the encoding is empty but the in-memory size is not (known finding for C09)
+	#[derive(Encode, Decode, DecodeWithMemTracking, Debug, PartialEq, Clone, Copy, Default)]
+	pub struct SZ { #[codec(skip)] pub x: u64 }
+	impl Reg for SZ {
+		const ZLEN: bool = true;
+		fn name() -> String { "SZ".into() }
+		fn descr() -> Value { json!({"k":"tuple","ts":[],"sz":size_of::<Self>()}) }
+		fn gen(_g: &mut G) -> Self { SZ { x: 0 } }
+		fn abs(&self) -> Value { json!([]) }
+	}
+
 	fn variant(i: u8, ts: Vec<Value>) -> Value { json!({"i": i, "ts": ts}) }
 
 	#[derive(Encode, Decode, DecodeWithMemTracking, Debug, PartialEq, Clone)]
